@@ -129,6 +129,55 @@ def execute(version, hist_abs, seed, thr=None, interleave=None, policy=None, chu
     return run, {'tp': prof.ge(107), 'ev': ev, 'version': version}, prof
 
 
+def two_sessions(version, hist1, hist2, seed, thr1, thr2):
+    """The same Connection object plays two sessions in a row (connect again after the server's disconnect): state of
+    the first session (compression, spawned flag, queue, reactor) must not leak into the second.  Returns two traces."""
+    from minecraft.networking.packets import Packet
+    prof = Profile(version)
+    rng = random.Random(seed)
+    hists = [[concretise(prof, rng, k, v) for (k, v) in h] for h in (hist1, hist2)]
+    run = Run(seed=seed, chunk='random')
+    marks = []
+
+    def factory(idx, sess):
+        sc = TracingScript(run, prof, [])
+        sc.steps = play_steps(sc, prof, hists[min(idx, 1)], (thr1, thr2)[min(idx, 1)], None)
+        return sc
+    run.serve(factory)
+    spawned = []
+
+    def scenario(run):
+        c = run.make_connection(allowed_versions={version})
+        c.register_packet_listener(lambda p: run.ev('deliver', p=packet_obs(p, prof)), Packet)
+        c.connect()
+        vt = run.installed.started[0]._vt
+        run.sched.yield_point(blocked_on=lambda: vt.finished)
+        spawned.append(bool(getattr(c, 'spawned', False)))
+        marks.append(len(run.trace))
+        c.connect()
+        vt2 = run.installed.started[-1]._vt
+        run.sched.yield_point(blocked_on=lambda: vt2.finished)
+        spawned.append(bool(getattr(c, 'spawned', False)))
+    run.go(scenario)
+    cut = marks[0] if marks else len(run.trace)
+    out = []
+    for part, sp in ((run.trace[:cut], spawned[:1]), (run.trace[cut:], spawned[1:])):
+        ev = []
+        for e in part:
+            if e['k'] == 'srv':
+                ev.append({'k': 'srv', 'p': e['p']})
+            elif e['k'] == 'deliver' and e['p'][0] != 'other':
+                ev.append({'k': 'deliver', 'p': e['p']})
+            elif e['k'] == 'c2s' and e['f']['t'] not in ('handshake', 'login_start'):
+                ev.append({'k': 'c2s', 'p': client_obs(e['f'], prof)})
+            elif e['k'] in ('closed', 'exit', 'error'):
+                ev.append({'k': e['k']})
+        if sp and sp[0]:
+            ev.append({'k': 'spawned'})
+        out.append({'tp': prof.ge(107), 'ev': ev, 'version': version})
+    return run, out
+
+
 def pending_write_scenario(version, seed, n_pending, policy=None):
     """The server sends its disconnect packet and closes while the client still has packets queued: the failing write
     is not an error (the disconnect packet explains it): clean exit, exit callback once, no error reported."""
@@ -282,6 +331,25 @@ def run(chk):
                               % (len(hist), version, thr, run_.outcome), {'version': version, 'seed': seed, 'thr': thr})
             all_traces.append(tr)
     chk.sample({'long_history_excerpt': all_traces[-1]['ev'][:10], 'version': all_traces[-1]['version']})
+
+    # ---- 3a'. two sessions on one Connection object (state must not leak from the first into the second)
+    for j in range(20 if quick else 250):
+        version = rng.choice(sup)
+        hr = random.Random(chk.seed * 271 + j)
+        prof_ge339 = known.index(version) >= known.index(339)
+        h1 = random_history(hr, hr.randint(3, 25), prof_ge339)
+        h2 = random_history(hr, hr.randint(3, 25), prof_ge339)
+        if j % 2:
+            h2 = [x for x in h2 if x[0] != 'pl']         # no position-and-look in the second session: spawned must be reset
+        thr1, thr2 = [(0, None), (64, None), (None, 0), (1, 256)][j % 4]
+        run_, trs = two_sessions(version, h1, h2, chk.seed * 7331 + j, thr1, thr2)
+        chk.traces += 1
+        chk.case(('two-sessions', j))
+        if run_.outcome != 'done' or len(run_.scripts) != 2:
+            chk.violation('play:two-sessions:%s' % run_.outcome, 'two sessions on one Connection at protocol %d (thresholds %r then %r): '
+                          'execution %s, %d TCP connections, errors %r' % (version, thr1, thr2, run_.outcome, len(run_.scripts), run_.errors[:2]),
+                          {'version': version})
+        all_traces += trs
 
     # ---- 3b. the disconnect packet arrives while writes are pending (they fail: not an error)
     from .. import vsched
